@@ -26,6 +26,10 @@ type c01in struct {
 	SegID int64     `json:"seg_id"`
 	NowMS int64     `json:"now_ms"`
 	URL   string    `json:"url"`
+	// FirstStart is the decode time of the first VoD segment of the representation (normally 0)
+	FirstStart int64 `json:"first_start"`
+	// Gen is the description of a generated asset (nil for bundled ones), so that a replay can rebuild it
+	Gen *lib.GenAsset `json:"gen,omitempty"`
 }
 
 // availMS: first millisecond at which segment n is available (harness's own statement).
@@ -114,10 +118,20 @@ func run(c *lib.Ctx) error {
 		if err != nil {
 			return err
 		}
-		for _, a := range assets {
+		rassets, rls := assets, ls
+		if in.Gen != nil {
+			ga, gl, cleanup, err := lib.GenSetup("c01replay", []lib.GenAsset{*in.Gen})
+			if err != nil {
+				return err
+			}
+			defer cleanup()
+			rassets, rls = ga, gl
+		}
+		for _, a := range rassets {
 			if a.Path == in.Asset {
 				r := a.Rep(in.Rep)
-				o := lib.FetchSeg(ls, a, in.Cfg, r, in.SegID, in.NowMS)
+				o := lib.FetchSeg(rls, a, in.Cfg, r, in.SegID, in.NowMS)
+				identifyStpp(r, &o)
 				fmt.Printf("replay %s -> status %d panic=%q tfdt=%d seq=%d dur=%d srcIdx=%d (expected tfdt=%d seq=%d src=%d)\n",
 					lib.SegURL(a, in.Cfg, r, in.SegID, in.NowMS), o.Status, o.Panic, o.Tfdt, o.Seq, o.Dur, o.SrcIdx,
 					r.LoopS(in.N), in.Cfg.EffSnr()+in.N, in.N%int64(len(r.Segs)))
@@ -141,99 +155,131 @@ func run(c *lib.Ctx) error {
 	}
 	repTerms := map[string]string{}
 	var defs strings.Builder
-	for ai, a := range assets {
-		for ri, r := range a.Reps {
-			if r.Kind == "audio" { // audio is C03
-				continue
+	runAssets := func(tag string, ls *lib.Livesim, assets []*lib.TLAsset, gens []lib.GenAsset) {
+		for ai, a := range assets {
+			if strings.HasPrefix(a.Path, "x_") {
+				// borderline layout: consolidateAsset may leave it out (then there is nothing to serve);
+				// if it is served, it has to be one gap-free timeline like every other asset
+				if resp := ls.GetRaw(lib.MPDURL(a, lib.TLCfg{Snr: -1, Tsbd: -1, Mode: "number"}, 100000)); resp.Status == 404 {
+					c.Count("left-out/" + a.Path)
+					continue
+				}
 			}
-			name := fmt.Sprintf("rep_%d_%d", ai, ri)
-			fmt.Fprintf(&defs, "Definition %s : rep := %s.\n", name, lib.CoqRep(r.VodRep))
-			repTerms[a.Path+"/"+r.ID] = name
-			N := int64(len(r.Segs))
-			var cfgs []lib.TLCfg
-			cfgs = append(cfgs, lib.TLCfg{Snr: -1, Tsbd: -1, Mode: "number"}, lib.TLCfg{Snr: -1, Tsbd: -1, Mode: "tlt"}, lib.TLCfg{Snr: -1, Tsbd: -1, Mode: "tlnr"})
-			for k := 0; k < nCfg; k++ {
-				cfgs = append(cfgs, lib.TLCfg{StartS: starts[rng.Intn(len(starts))], Snr: snrs[rng.Intn(len(snrs))], Tsbd: -1, Mode: modes[rng.Intn(3)]})
-			}
-			for _, cfg := range cfgs {
-				// segment indices: three wraps from the start, around 2^32 ticks, far from the epoch
-				var ns []int64
-				for n := int64(0); n <= nWraps*N+1; n++ {
-					ns = append(ns, n)
+			for ri, r := range a.Reps {
+				if r.Kind == "audio" { // audio is C03
+					continue
 				}
-				segTicks := r.Duration() / N
-				if segTicks > 0 {
-					n32 := (int64(1) << 32) / segTicks
-					ns = append(ns, n32-1, n32, n32+1, n32+2)
+				name := fmt.Sprintf("rep_%s%d_%d", tag, ai, ri)
+				fmt.Fprintf(&defs, "Definition %s : rep := %s.\n", name, lib.CoqRep(r.VodRep))
+				repTerms[a.Path+"/"+r.ID] = name
+				N := int64(len(r.Segs))
+				var cfgs []lib.TLCfg
+				cfgs = append(cfgs, lib.TLCfg{Snr: -1, Tsbd: -1, Mode: "number"}, lib.TLCfg{Snr: -1, Tsbd: -1, Mode: "tlt"}, lib.TLCfg{Snr: -1, Tsbd: -1, Mode: "tlnr"})
+				for k := 0; k < nCfg; k++ {
+					cfgs = append(cfgs, lib.TLCfg{StartS: starts[rng.Intn(len(starts))], Snr: snrs[rng.Intn(len(snrs))], Tsbd: -1, Mode: modes[rng.Intn(3)]})
 				}
-				farMS := int64(1700000000000) + rng.Int63n(1000000000)
-				nFar := (farMS - cfg.StartS*1000) * r.Timescale / 1000 / segTicksOr1(segTicks)
-				for d := int64(0); d <= N; d++ {
-					ns = append(ns, nFar+d)
-				}
-				var prev *lib.SegObs
-				var prevN int64 = -10
-				for _, n := range ns {
-					if n < 0 {
-						continue
+				for _, cfg := range cfgs {
+					// segment indices: three wraps from the start, around 2^32 ticks, far from the epoch
+					var ns []int64
+					for n := int64(0); n <= nWraps*N+1; n++ {
+						ns = append(ns, n)
 					}
-					mode := cfg.Mode
-					if r.Kind == "image" {
-						mode = "number"
+					segTicks := r.Duration() / N
+					if segTicks > 0 {
+						n32 := (int64(1) << 32) / segTicks
+						ns = append(ns, n32-1, n32, n32+1, n32+2)
 					}
-					segID := cfg.EffSnr() + n
-					if mode == "tlt" {
-						segID = r.LoopS(n)
+					farMS := int64(1700000000000) + rng.Int63n(1000000000)
+					nFar := (farMS - cfg.StartS*1000) * r.Timescale / 1000 / segTicksOr1(segTicks)
+					for d := int64(0); d <= N; d++ {
+						ns = append(ns, nFar+d)
 					}
-					now := availMS(r, cfg, n) + int64(rng.Intn(2000))
-					in := c01in{Asset: a.Path, Rep: r.ID, Cfg: cfg, N: n, SegID: segID, NowMS: now}
-					in.URL = lib.SegURL(a, cfg, r, segID, now)
-					o := lib.FetchSeg(ls, a, cfg, r, segID, now)
-					identifyStpp(r, &o)
-					id := len(ins)
-					ins = append(ins, in)
-					obs = append(obs, o)
-					c.Res.Inputs[fmt.Sprint(id)] = in
-					c.Count(r.Kind + "/" + mode)
-					var p *lib.SegObs
-					if prevN == n-1 {
-						p = prev
+					var prev *lib.SegObs
+					var prevN int64 = -10
+					for _, n := range ns {
+						if n < 0 {
+							continue
+						}
+						mode := cfg.Mode
+						if r.Kind == "image" {
+							mode = "number"
+						}
+						segID := cfg.EffSnr() + n
+						if mode == "tlt" {
+							segID = r.LoopS(n)
+						}
+						now := availMS(r, cfg, n) + int64(rng.Intn(2000))
+						in := c01in{Asset: a.Path, Rep: r.ID, Cfg: cfg, N: n, SegID: segID, NowMS: now, FirstStart: r.Segs[0].Start}
+						in.URL = lib.SegURL(a, cfg, r, segID, now)
+						o := lib.FetchSeg(ls, a, cfg, r, segID, now)
+						identifyStpp(r, &o)
+						id := len(ins)
+						ins = append(ins, in)
+						obs = append(obs, o)
+						c.Res.Inputs[fmt.Sprint(id)] = in
+						c.Count(r.Kind + "/" + mode)
+						var p *lib.SegObs
+						if prevN == n-1 {
+							p = prev
+						}
+						oracle(c, fmt.Sprint(id), a, r, in, o, p)
+						oc := o
+						prev, prevN = &oc, n
+						if o.Status == 200 {
+							distinct[fmt.Sprintf("%s/%s/%s/%d", a.Path, r.ID, cfg.URLPrefix(), n)] = true
+						}
+						am := "ByNumber"
+						if mode == "tlt" {
+							am = "ByTime"
+						}
+						terms = append(terms, fmt.Sprintf("{| c_id := %d; k_img := %s; k_edge := false; k_rep := %s; k_loopMS := %d; k_cfg := %s; k_mode := %s; k_segID := %d; k_now := %d; o_status := %d; o_ms := %s; o_tfdt := %d; o_seq := %d; o_srcStart := %d; o_dur := %d |}",
+							id, lib.Cbool(r.Kind == "image"), name, a.LoopMS, cfg.CoqCfg(), am, segID, now, o.Status, lib.Zs(o.EarlyMS), o.Tfdt, o.Seq, o.SrcStart, o.Dur))
 					}
-					oracle(c, fmt.Sprint(id), a, r, in, o, p)
-					oc := o
-					prev, prevN = &oc, n
-					if o.Status == 200 {
-						distinct[fmt.Sprintf("%s/%s/%s/%d", a.Path, r.ID, cfg.URLPrefix(), n)] = true
-					}
-					am := "ByNumber"
-					if mode == "tlt" {
-						am = "ByTime"
-					}
-					terms = append(terms, fmt.Sprintf("{| c_id := %d; k_img := %s; k_edge := false; k_rep := %s; k_loopMS := %d; k_cfg := %s; k_mode := %s; k_segID := %d; k_now := %d; o_status := %d; o_ms := %s; o_tfdt := %d; o_seq := %d; o_srcStart := %d; o_dur := %d |}",
-						id, lib.Cbool(r.Kind == "image"), name, a.LoopMS, cfg.CoqCfg(), am, segID, now, o.Status, lib.Zs(o.EarlyMS), o.Tfdt, o.Seq, o.SrcStart, o.Dur))
-				}
-				// $Number$ and $Time$ address the same segment
-				if r.Kind != "image" {
-					for k := 0; k < 3; k++ {
-						n := ns[rng.Intn(len(ns))]
-						cn, ct := cfg, cfg
-						cn.Mode, ct.Mode = "tlnr", "tlt"
-						now := availMS(r, cfg, n) + 100
-						on := lib.FetchSeg(ls, a, cn, r, cfg.EffSnr()+n, now)
-						ot := lib.FetchSeg(ls, a, ct, r, r.LoopS(n), now)
-						c.Count("number-vs-time")
-						if on.Status != ot.Status || on.Tfdt != ot.Tfdt || on.Seq != ot.Seq || on.Payload != ot.Payload {
-							c.Fail(fmt.Sprintf("nt-%s-%s-%d", a.Path, r.ID, n), "number-vs-time", fmt.Sprintf("$Number$ gives status %d tfdt %d seq %d, $Time$ gives status %d tfdt %d seq %d", on.Status, on.Tfdt, on.Seq, ot.Status, ot.Tfdt, ot.Seq),
-								c01in{Asset: a.Path, Rep: r.ID, Cfg: ct, N: n, SegID: r.LoopS(n), NowMS: now})
+					// $Number$ and $Time$ address the same segment
+					if r.Kind != "image" {
+						for k := 0; k < 3; k++ {
+							n := ns[rng.Intn(len(ns))]
+							cn, ct := cfg, cfg
+							cn.Mode, ct.Mode = "tlnr", "tlt"
+							now := availMS(r, cfg, n) + 100
+							on := lib.FetchSeg(ls, a, cn, r, cfg.EffSnr()+n, now)
+							ot := lib.FetchSeg(ls, a, ct, r, r.LoopS(n), now)
+							c.Count("number-vs-time")
+							if on.Status != ot.Status || on.Tfdt != ot.Tfdt || on.Seq != ot.Seq || on.Payload != ot.Payload {
+								c.Fail(fmt.Sprintf("nt-%s-%s-%d", a.Path, r.ID, n), "number-vs-time", fmt.Sprintf("$Number$ gives status %d tfdt %d seq %d, $Time$ gives status %d tfdt %d seq %d", on.Status, on.Tfdt, on.Seq, ot.Status, ot.Tfdt, ot.Seq),
+									c01in{Asset: a.Path, Rep: r.ID, Cfg: ct, N: n, SegID: r.LoopS(n), NowMS: now, FirstStart: r.Segs[0].Start})
+							}
 						}
 					}
 				}
 			}
 		}
 	}
+	runAssets("b", ls, assets, nil)
+	// generated layouts (N = 1..7; uniform, alternating, irregular; timescales 1000..90000 incl. 1001-based;
+	// $Number$ and $Time$ VoD manifests; stpp and thumbnails), plus the borderline ones of the findings stream
+	var layouts []lib.GenAsset
+	for _, l := range lib.GenCatalogue() {
+		if l.Class == "ok" || l.Asset.Name == "x_near_disagree" || l.Asset.Name == "x_text_longer" || l.Asset.Name == "x_starttime_tl" || l.Asset.Name == "x_gap_tl" {
+			layouts = append(layouts, l.Asset)
+		}
+	}
+	nRand := 4
+	if c.Thorough() {
+		nRand = 40
+	}
+	for i := 0; i < nRand; i++ {
+		layouts = append(layouts, lib.RandGenAsset(rng, fmt.Sprintf("r%d", i), lib.RandGenOpts{Text: true, Thumbs: true}))
+	}
+	gAssets, gls, cleanup, err := lib.GenSetup("c01", layouts)
+	if err != nil {
+		return err
+	}
+	defer cleanup()
+	runAssets("g", gls, gAssets, layouts)
 	c.Res.Evaluations = len(ins)
 	c.Res.DistinctNontrivial = len(distinct)
-	c.Res.Rule = "bundled assets (N=1,2,4 segments; uniform, alternating 4s/8s, 2.002s; timescales 1,1000,12800,15360,30000,90000) x non-audio representations (video, stpp text, stpp image, thumbnails) x {Number, Timeline-Number, Timeline-Time} x start in {0,30,1.6e9} x startNumber in {unset,0,1,7}; segment indices over 3 loop wraps from stream start, around 2^32 ticks and ~1.7e12 ms from the epoch (64-bit tfdt); distinct = distinct (asset, rep, config, index) answered 200"
+	c.Res.Rule = "bundled assets and generated layouts (catalogue + random: N=1..7 segments; uniform, alternating, irregular; timescales 1000..90000 incl. 1001-based; $Number$ and $Time$ VoD manifests) (bundled: N=1,2,4 segments; uniform, alternating 4s/8s, 2.002s; timescales 1,1000,12800,15360,30000,90000) x non-audio representations (video, stpp text, stpp image, thumbnails) x {Number, Timeline-Number, Timeline-Time} x start in {0,30,1.6e9} x startNumber in {unset,0,1,7}; segment indices over 3 loop wraps from stream start, around 2^32 ticks and ~1.7e12 ms from the epoch (64-bit tfdt); distinct = distinct (asset, rep, config, index) answered 200"
 	for i := 0; i < 3 && i < len(ins); i++ {
 		k := (i * 7919) % len(ins)
 		c.Sample(map[string]any{"request": ins[k].URL, "status": obs[k].Status, "tfdt": obs[k].Tfdt, "seq": obs[k].Seq, "source_index": obs[k].SrcIdx})
